@@ -369,7 +369,7 @@ class RefApp:
         fn = self.fn
         exps = []
         stale = []
-        if fn % self.ind_period == 0:
+        if self.ind_period and fn % self.ind_period == 0:
             for i in self.links:
                 d = self.defs[i]
                 want = ("IND CLOCK %u" % fn).encode() + b"\0"
